@@ -31,6 +31,40 @@ def slim(c):
     return {k: c[k] for k in ("v", "stratum", "st", "e", "verdict", "rule")}
 
 
+def random_triples(rep, pid, n):
+    from checks import c08_random
+    wd = vlib.workdir(pid)
+    cases = c08_random.generate(vlib.seed(), n)
+    cp = os.path.join(wd, "rand_cases.ndjson")
+    op = os.path.join(wd, "rand_obs.ndjson")
+    vlib.write_ndjson(cp, cases)
+    vlib.run_harness(["replay", "c08"], stdin_path=cp, stdout_path=op)
+    obs = vlib.read_ndjson(op)
+
+    def strip(e):
+        return {k: v for k, v in e.items() if k != "c"}
+    tp = os.path.join(wd, "rand_trace.ndjson")
+    vlib.write_ndjson(tp, [{"v": c["v"], "st": [strip(x) for x in c["st"]], "e": strip(c["e"]), "out": o["out"]} for c, o in zip(cases, obs)])
+    vlib.maybe_corrupt(tp)
+    res = vlib.run_tlc(pid, "Trace_C08", name="randtrace", env={"TRACE": tp}, heap="12g", stack="1g")
+    if res.violated or res.rc != 0:
+        raise vlib.ToolError("Trace_C08 failed: %s" % res.lines[-20:])
+    if res.distinct != len(cases):
+        raise vlib.ToolError("Trace_C08 covered %d of %d records" % (res.distinct, len(cases)))
+    rep.add_tlc(res, "randtrace")
+    bad = sorted({int(t.split(",")[0]) for t in res.tuples("MISMATCH")})
+    unspec = len({int(t.split(",")[0]) for t in res.tuples("UNSPEC")})
+    for i in bad:
+        c, o = cases[i - 1], obs[i - 1]
+        what = "panic" if o["out"].startswith("panic") else "random/%s-got-%s" % (c["e"]["type"], o["out"])
+        rep.violation("auth/%s" % what, {"v": c["v"], "state": [x["c"] | {"id": x["id"], "type": x["type"], "sender": x["sender"], "key": x["key"]} for x in c["st"]],
+                                          "event": c["e"]["c"] | {k: c["e"][k] for k in ("type", "sender", "key", "haskey", "prev", "auth", "idserver")},
+                                          "observed": o["out"]})
+    rep.part("randtrace", triples=len(cases), undecided_by_the_specification=unspec, mismatches=len(bad),
+             allowed=sum(1 for o in obs if o["out"] == "allow"))
+    return len(cases), len(cases) - unspec
+
+
 def run(rep, tier):
     n = nontriv = 0
     rules = {}
@@ -47,11 +81,15 @@ def run(rep, tier):
             rep.violation("auth/rule-%s/expected-%s" % (c["rule"], c["verdict"]), {"case": slim(c), "observed": o["out"]})
         if n == 4242:
             rep.sample({"case": slim(c), "observed": o["out"]})
-    rep.cov["evaluations"] = n
-    rep.cov["distinct_nontrivial"] = nontriv
-    rep.cov["traces_validated_against_impl"] = n
+    # randomised concrete triples on top of the abstraction, judged by TLC (impl -> spec)
+    nr, nd = random_triples(rep, "C08", 150000 if tier == "thorough" else 6000)
+    rep.cov["evaluations"] = n + nr
+    rep.cov["distinct_nontrivial"] = nontriv + nd
+    rep.cov["traces_validated_against_impl"] = n + nr
     rep.cov["exhaustive"] = True
-    rep.cov["rule"] = RULE08
+    rep.cov["rule"] = RULE08 + (" On top, random concrete triples (levels anywhere in -1..101, several fields and map entries at once, any "
+                                "combination of memberships, join rules, third-party invites and candidate events) are replayed and every "
+                                "recorded verdict is judged by Trace_C08 (EventAuth!Auth on the recorded state and event).")
     rep.cov["rule_ids_fired"] = rules
     rep.assumptions += ["third-party-invite signatures are real Ed25519 signatures made by the harness (listed key = valid, unlisted key = invalid)",
                         "malformed power levels in *state*, knock while invited, and the two readings of the added/removed scalar rule are UNSPEC"]
